@@ -1,4 +1,4 @@
-import Qryn.Proofs.MetricStages
+import Qryn.Proofs.MetricBy
 /-! C08 plan-level proofs, part 3: composing the stages into `planMetric`. -/
 namespace Qryn.Sql
 
@@ -117,6 +117,43 @@ theorem PStage.wrap {o c d q s pts L} (h : PStage o c d q s pts L) (n : String) 
   obtain ⟨rest, r1, r2⟩ := h.withs
   refine ⟨⟨rest ++ [(.named n, s)], by rw [w1, r1, List.append_assoc], by rw [als_append, r2]; rfl⟩, w2, ?_⟩
   rw [w3]; exact hrep
+
+/-- **a planner that wraps the statement built so far** as `n` next to a second sub-query `m2 as n2` without WITH of its own -/
+theorem PStage.wrap2 {o c d q s pts L} (h : PStage o c d q s pts L) (n n2 : String) (h1 : n ≠ "fp_sel") (h2 : Alias.named n ∉ L)
+    (h1' : n2 ≠ "fp_sel") (h2' : Alias.named n2 ∉ L) (hne : n2 ≠ n)
+    (body : Sel) (hb : isBitSetHaving body.having = false) (m2 : Sel) (hm2 : m2.withs = [])
+    (hb2 : isBitSetHaving m2.having = false) (pts' : List Pt)
+    (hrep : Rep (evalBodyA o (d.toDbM c)
+      ((.named n2, evalBodyA o (d.toDbM c) ((.named n, evalSelA o (d.toDbM c) s) :: envOf o (d.toDbM c) s) m2) ::
+        (.named n, evalSelA o (d.toDbM c) s) :: envOf o (d.toDbM c) s) body) pts') :
+    PStage o c d q (body.with_ [(.named n, s), (.named n2, m2)]) pts' (L ++ [.named n, .named n2]) := by
+  obtain ⟨rest, r1, r2⟩ := h.withs
+  have hfn := h.fresh n h1 h2
+  have hfn2 := h.fresh n2 h1' h2'
+  have hw : body.with_ [(.named n, s), (.named n2, m2)] = body.setWiths (s.withs ++ [(.named n, s), (.named n2, m2)]) := by
+    apply with_two _ _ _ _ _ h.nodup hfn2 (fun e => hne (Alias.named.inj e))
+    intro x hx
+    rw [hm2] at hx
+    simp [als] at hx
+  rw [hw]
+  refine ⟨⟨rest ++ [(.named n, s), (.named n2, m2)], by rw [withs_setWiths, r1, List.append_assoc], by rw [als_append, r2]; rfl⟩, ?_, ?_⟩
+  · rw [withs_setWiths, als_append]
+    refine List.nodup_append.mpr ⟨h.nodup, ?_, ?_⟩
+    · simp only [als, List.map_cons, List.map_nil, List.nodup_cons, List.mem_cons, List.not_mem_nil, or_false, not_false_eq_true,
+        List.nodup_nil, and_true]
+      exact fun e => hne (Alias.named.inj e).symm
+    · intro x hx y hy
+      simp only [als, List.map_cons, List.map_nil, List.mem_cons, List.not_mem_nil, or_false] at hy
+      rcases hy with rfl | rfl
+      · exact fun e => hfn (e ▸ hx)
+      · exact fun e => hfn2 (e ▸ hx)
+  · rw [evalSelA_eq, evalBodyM_setWiths, evalBodyM_eq_A _ _ _ _ hb]
+    unfold envOf
+    rw [withs_setWiths, evalWithsA_append]
+    simp only [evalWithsA]
+    rw [evalBodyM_eq_A _ _ _ m2 hb2]
+    rw [evalSelA_eq] at hrep
+    exact hrep
 
 /-- **range phase (no unwrap, no shortcut).** The select after `planSpl`, `LRAPlanner` and the optional comparison
     holds the points of the direct reading's range stage and comparison. -/
@@ -248,5 +285,152 @@ theorem planMetric_range_lra (o : Oracles) (c : MCtx) (hn : c.namesOk) (d : Loki
   simp only [hs, Bool.false_eq_true, if_false, MetricQuery.rangeAgg, MetricQuery.agg?, stepStage, hstep, if_true,
     rangePoints_lra o c.toCtx d r fn _ _ hk, entryMatchesW_window]
   rfl
+
+end Qryn.LogQL
+
+namespace Qryn.LogQL
+open Qryn Qryn.Sql
+
+/-! ### names handed out by `ctx.Id()` -/
+macro "str_ne" : tactic => `(tactic| (intro h; have := congrArg String.toList h; simp at this))
+
+theorem pw_lb (j k : Nat) : ∀ x y, ("pre_without_" ++ toString j) ++ "." ++ x ≠ ("labels_" ++ toString k) ++ "." ++ y := by
+  intro x y; str_ne
+
+theorem lb_ne_pw (j k : Nat) : "labels_" ++ toString k ≠ "pre_without_" ++ toString j := by str_ne
+
+/-! ### points after a grouping -/
+/-- a point of a regrouped series: key and labels both come from the kept label set (or both are absent) -/
+def Regrouped (p : Pt) : Prop := (∃ h m, p.key = .int h ∧ p.labels = .map m) ∨ (p.key = .null ∧ p.labels = .null)
+
+theorem regroupPt_regrouped (o : Oracles) (c : Ctx) (d : LokiDb) (q : LogQuery) (g : Grouping) (p : Pt) :
+    Regrouped (regroupPt o c d q g p) := by
+  unfold regroupPt regroup
+  cases ptLabels o c d q p with
+  | map m => exact Or.inl ⟨_, _, rfl, rfl⟩
+  | _ => exact Or.inr ⟨rfl, rfl⟩
+
+theorem ptLabels_of_regrouped (o : Oracles) (c : Ctx) (d : LokiDb) (q : LogQuery) (p : Pt) (h : Regrouped p) :
+    ptLabels o c d q p = p.labels := by
+  unfold ptLabels
+  rcases h with ⟨h, m, h1, h2⟩ | ⟨h1, h2⟩
+  · rw [h1, h2]
+  · rw [h1, h2]
+
+theorem aggCore_regrouped (fn : AggFn) (pts : List Pt) (h : ∀ p ∈ pts, Regrouped p) : ∀ p ∈ aggCore fn pts, Regrouped p := by
+  intro p hp
+  unfold aggCore at hp
+  obtain ⟨g, hg, hgp⟩ := List.mem_filterMap.mp hp
+  obtain ⟨⟨a, rest, hgr, hk⟩, hall⟩ := groupsBy_head _ pts g hg
+  cases hv : aggVal fn (g.2.map (·.value)) with
+  | none => rw [hv] at hgp; cases hgp
+  | some v =>
+    rw [hv] at hgp
+    simp only [Option.map_some, Option.some.injEq] at hgp
+    subst hgp
+    have ha := h a (hall a (by rw [hgr]; simp)).1
+    have hk1 : a.key = g.1.1 := by rw [← hk]
+    simp only [hgr, List.head?_cons, Option.map_some, Option.getD_some]
+    unfold Regrouped at ha ⊢
+    simp only [← hk1]
+    exact ha
+
+/-! ### the aggregation phase with a grouping clause, on the time-series path -/
+theorem aggSel_eq (fn : AggFn) (main : Sel) : aggSel fn true main = (aggBody fn none).with_ [(.named "lra_main", main)] := rfl
+
+theorem aggPhase_eq (fn : AggFn) (cm : Option Comparison) (main : Sel) :
+    cmpOpt cm (aggSel fn true main) = (aggBody fn (cmpHaving cm)).with_ [(.named "lra_main", main)] := by
+  rw [aggSel_eq]
+  unfold aggBody Sel.with_
+  simp only [Sel.setWiths]
+  rw [cmpOpt_eq]
+
+theorem byWithoutTS_eq (c : Ctx) (id : Nat) (g : Grouping) (main : Sel) :
+    byWithoutTS c id g main =
+      (bwBody c ("pre_without_" ++ toString (id + 2)) ("labels_" ++ toString (id + 1))).with_
+        [(.named ("pre_without_" ++ toString (id + 2)), main),
+         (.named ("labels_" ++ toString (id + 1)), (timeSeriesSel c).setCols
+            (patchCol (timeSeriesSel c).cols "labels" (byWithoutCol g) ++ [.col hashLabels "new_fingerprint"]))] := rfl
+
+theorem PStage.byWithoutTS {o c d q s pts L} (h : PStage o c d q s pts L) (hn : c.namesOk) (hm : q.matchers.length ≤ 63)
+    (hl : ∀ x ∈ pts, x.labels = .null) (id : Nat) (g : Grouping)
+    (h2 : Alias.named ("pre_without_" ++ toString (id + 2)) ∉ L) (h2' : Alias.named ("labels_" ++ toString (id + 1)) ∉ L) :
+    PStage o c d q (byWithoutTS c.toCtx id g s) (pts.map (regroupPt o c.toCtx d q g))
+      (L ++ [.named ("pre_without_" ++ toString (id + 2)), .named ("labels_" ++ toString (id + 1))]) := by
+  rw [byWithoutTS_eq]
+  obtain ⟨T, hT1, hT2⟩ := h.fp_lookup hn hm
+  apply h.wrap2 _ _ (by str_ne) h2 (by str_ne) h2' (lb_ne_pw _ _) _ (by rfl) _ (by rfl) (by rfl)
+  apply bw_eval o c d q _ g _ _ (pw_lb _ _) _ pts h.rep hl
+  · simp only [List.lookup]
+    rw [show (Alias.named ("pre_without_" ++ toString (id + 2)) == Alias.named ("labels_" ++ toString (id + 1))) = false by
+      rw [alias_named_beq, beq_eq_false_iff_ne]; exact (lb_ne_pw _ _).symm]
+    simp
+  · simp only [List.lookup, beq_self_eq_true]
+    rw [labelsSel_eval o c hn d q _ T _ hT2 g]
+    simp only [List.lookup]
+    rw [show (Alias.named "fp_sel" == Alias.named ("pre_without_" ++ toString (id + 2))) = false by
+      rw [alias_named_beq, beq_eq_false_iff_ne]; str_ne]
+    exact hT1
+
+theorem PStage.agg {o c d q s pts L} (h : PStage o c d q s pts L) (fn : AggFn) (hfn : fn ≠ .stddev ∧ fn ≠ .stdvar)
+    (cm : Option Comparison) (h2 : Alias.named "lra_main" ∉ L) :
+    PStage o c d q (cmpOpt cm (aggSel fn true s)) (cmpStage cm (aggCore fn pts)) (L ++ [.named "lra_main"]) := by
+  rw [aggPhase_eq]
+  apply h.wrap "lra_main" (by decide) h2 (aggBody fn (cmpHaving cm)) (cmpHaving_notBitSet cm)
+  exact agg_eval o _ _ fn hfn _ pts h.rep (by simp [List.lookup]) cm
+
+end Qryn.LogQL
+
+namespace Qryn.LogQL
+open Qryn Qryn.Sql
+
+theorem map_ptLabels_regrouped (o : Oracles) (c : Ctx) (d : LokiDb) (q : LogQuery) (pts : List Pt)
+    (h : ∀ p ∈ pts, Regrouped p) : pts.map (fun p => { p with labels := ptLabels o c d q p }) = pts := by
+  conv => rhs; rw [← List.map_id pts]
+  apply List.map_congr_left
+  intro p hp
+  rw [ptLabels_of_regrouped o c d q p (h p hp)]
+  rfl
+
+/-- **plan_metric_correct, class `aggOp by/without (…) (rangeFn(selector [d]) [cmp]) [cmp]`** (samples path, step ≤ range) -/
+theorem planMetric_agg_lra (o : Oracles) (c : MCtx) (hn : c.namesOk) (d : LokiDb) (a : VecAgg) (fn : RangeFn) (g : Grouping)
+    (hk : a.inner.kind = .lra fn) (hg : chosenGrouping a.byPrefix a.bySuffix = some g)
+    (hfn : a.fn ≠ .stddev ∧ a.fn ≠ .stdvar)
+    (hm : a.inner.sel.matchers.length ≤ 63) (hms : 1000000 ∣ a.inner.durNs) (hd : 0 < a.inner.durNs)
+    (hs : takesShortcut (.agg a) = false) (hstep : c.stepNs ≤ (a.inner.durNs : Int)) :
+    (evalSelA o (d.toDbM c) (planMetric c (.agg a))).map normRow = evalMetric o c d (.agg a) := by
+  have hgr : a.grouped = true := by
+    unfold VecAgg.grouped
+    unfold chosenGrouping at hg
+    cases hb : a.bySuffix with
+    | some x => simp
+    | none => rw [hb] at hg; simp only at hg; rw [hg]; simp
+  have hplan : planMetric c (.agg a) =
+      finalizeMatrix (cmpOpt a.cmp (aggSel a.fn true (byWithoutTS c.toCtx (labelConds a.inner.sel).length g
+        (cmpOpt a.inner.cmp (lraSel fn a.inner.durNs false (samplesMain c.toCtx a.inner.sel)))))) := by
+    unfold planMetric
+    simp only [MetricQuery.rangeAgg, planSteps, hs, Bool.false_eq_true, if_false, functionOrder, orderAgg, orderRange, hk, hg,
+      List.foldl_append, List.foldl_cons, List.foldl_nil, applyStep, foldl_cmpStep, splSel, stepFix_identity c _ _ hstep,
+      matrixLabels, RangeAgg.isUnwrap, MetricQuery.agg?, hgr, Bool.false_and, Bool.false_or, if_true, planByWithout,
+      Bool.not_false]
+  rw [hplan]
+  have h1 := lraPhase_ok o c hn d a.inner.sel hm fn a.inner.durNs hms hd a.inner.cmp
+  have h2 := h1.byWithoutTS hn hm (cmpStage_labels _ _ _ (lraPts_labels fn a.inner.durNs _)) (labelConds a.inner.sel).length g
+    (by simp only [List.mem_singleton, Alias.named.injEq]; str_ne) (by simp only [List.mem_singleton, Alias.named.injEq]; str_ne)
+  have h3 := h2.agg a.fn hfn a.cmp (by
+    simp only [List.mem_append, List.mem_cons, List.not_mem_nil, or_false, Alias.named.injEq, not_or]
+    refine ⟨by decide, ?_, ?_⟩ <;> (apply Ne.symm; str_ne))
+  rw [h3.final (by
+    simp only [List.mem_append, List.mem_cons, List.not_mem_nil, or_false, Alias.named.injEq, not_or]
+    refine ⟨⟨by decide, ?_, ?_⟩, by decide⟩ <;> (apply Ne.symm; str_ne))]
+  unfold evalMetric effWindow metricPoints
+  simp only [hs, Bool.false_eq_true, if_false, MetricQuery.rangeAgg, MetricQuery.agg?, stepStage, hstep, if_true,
+    rangePoints_lra o c.toCtx d a.inner fn _ _ hk, entryMatchesW_window, aggStage_eq, hg, Option.getD_some]
+  rw [map_ptLabels_regrouped]
+  apply cmpStage_labels
+  apply aggCore_regrouped
+  intro p hp
+  obtain ⟨x, _, rfl⟩ := List.mem_map.mp hp
+  exact regroupPt_regrouped ..
 
 end Qryn.LogQL
